@@ -5,6 +5,10 @@ a fresh worker process (harness/c16_worker.py; the generator's and fix.core's re
 opened in append mode) runs the real `parse` + `Generator` — or the click command of fix/codegen.py — imports the generated package
 and introspects it: field classes (Tag, FieldType, Values), group classes in definition order with their Entries, segment classes,
 message classes (Type, Category, segments), the session base class; then builds, encodes, decodes, validates and frames messages.
+Besides single dictionaries there are *interleaved groups*: 2..3 dictionaries (any versions) whose generators are constructed and
+run in ONE process at the granularity of the generator API — `construct i` (parse + Generator(...)) and `generate i` in any
+interleaving, as a build script that prepares all generators and then writes them does —; every package is then introspected in a
+process of its own and judged against its own dictionary exactly like a single case.
 
  * correspondence: the same dictionary goes to the Lean model (drv_C16): `gen.fix` (abstract generated code: class names incl. the
    unique group names, entry references, order of the groups module) and `gen.load` (references followed) are diffed with the
@@ -771,16 +775,40 @@ def run_worker(job):
     return json.loads(lines[-1])
 
 
-def make_job(tmp, idx, d, rng, plans):
+def make_job(tmp, idx, d, rng, plans, opts=None):
     root = os.path.join(tmp, f'case{idx}')
     os.makedirs(root)
     xml = os.path.join(root, 'spec.xml')
     with open(xml, 'w', encoding='utf-8') as f:
         f.write(dict_xml(d))
-    return {'repo': common.REPO, 'xml': xml, 'version': d['version'], 'app': rng.choice(['gwy', 'app1', 'x_y']),
-            'prefix': rng.choice(['', '', 'pfx']), 'out_root': os.path.join(root, 'out'), 'pkg': rng.choice(['genpkg', 'p1']),
-            'mode': 'cli' if d['version'] in VERSIONS and rng.random() < 0.5 else 'api', 'init_file': rng.random() < 0.6,
-            'plans': [{k: v for k, v in p.items() if k != 'expect'} for p in plans], 'seg_seed': rng.randrange(1 << 30)}
+    job = {'repo': common.REPO, 'xml': xml, 'version': d['version'], 'app': rng.choice(['gwy', 'app1', 'x_y']),
+           'prefix': rng.choice(['', '', 'pfx']), 'out_root': os.path.join(root, 'out'), 'pkg': rng.choice(['genpkg', 'p1']),
+           'mode': 'cli' if d['version'] in VERSIONS and rng.random() < 0.5 else 'api', 'init_file': rng.random() < 0.6,
+           'plans': [{k: v for k, v in p.items() if k != 'expect'} for p in plans], 'seg_seed': rng.randrange(1 << 30)}
+    job.update(opts or {})           # (replay: the options of the recorded run)
+    return job
+
+
+JOB_OPTS = ('app', 'prefix', 'pkg', 'init_file', 'mode')
+
+
+def gen_schedule(rng, n):
+    """an interleaving of `['c', i]` (construct generator i) and `['g', i]` (its generate(), once — sometimes twice) for i < n,
+    every generator constructed before it generates; biased towards another construction between `c i` and `g i`"""
+    seqs = [[['c', i], ['g', i]] + ([['g', i]] if rng.random() < 0.15 else []) for i in range(n)]
+    if rng.random() < 0.5:      # prepare all, then write all (in any order)
+        order = list(range(n))
+        rng.shuffle(order)
+        cs = [seqs[i][0] for i in order]
+        gs = [op for i in range(n) for op in seqs[i][1:]]
+        rng.shuffle(gs)
+        return cs + gs
+    out, pos = [], [0] * n
+    while any(pos[i] < len(seqs[i]) for i in range(n)):
+        i = rng.choice([x for x in range(n) if pos[x] < len(seqs[x])])
+        out.append(seqs[i][pos[i]])
+        pos[i] += 1
+    return out
 
 
 def impl_outcome(res):
@@ -1048,18 +1076,83 @@ def tables_check(ctx):
             model = [[untext(e[0]), e[1], e[2]] for e in parse_sx(a[3:])[0]] if a.startswith('ok') else a
             if model != live:
                 ctx.disagree(f'type table {v}: {first_diff(live, model)}', {'kind': 'type-table', 'version': v})
+    # the table of a version must not depend on which tables were asked for before: every order of the four versions, each in a
+    # process that starts with a freshly loaded version_types module
+    code = ('import sys, json, itertools, importlib\n'
+            'sys.path.insert(0, sys.argv[1])\n'
+            'from nasdaq_protocols.fix.parser import version_types as vt\n'
+            'out = []\n'
+            'for perm in itertools.permutations(%r):\n'
+            '    vt = importlib.reload(vt)\n'
+            '    row = {}\n'
+            '    for v in perm:\n'
+            '        try:\n'
+            '            row[v] = [[k, c.__name__, c.type_cls.__name__] for k, c in vt.get_supported_types(v).items()]\n'
+            '        except Exception as e:\n'
+            '            row[v] = "raised " + type(e).__name__\n'
+            '    out.append([list(perm), row])\n'
+            'print(json.dumps(out))\n' % (VERSIONS,))
+    try:
+        p = subprocess.run([PY, '-W', 'ignore', '-c', code, os.path.join(common.REPO, 'src')], capture_output=True, text=True, timeout=120)
+        rows = json.loads([ln for ln in p.stdout.split('\n') if ln.startswith('[')][-1])
+    except Exception as e:  # noqa
+        rows = []
+        ctx.disagree(f'type tables in every order: the probe could not run ({common.err_name(e)})', {'kind': 'type-table', 'order': 'all'})
+    model = {}
+    for v, a in zip(VERSIONS, ans):
+        if a is not None and a.startswith('ok'):
+            model[v] = [[untext(e[0]), e[1], e[2]] for e in parse_sx(a[3:])[0]]
+    reported = set()
+    for perm, row in rows:
+        ctx.case('types-order ' + '>'.join(perm))
+        ctx.count('type-table-order')
+        for v in perm:
+            live = row[v]
+            rp = {'kind': 'type-table', 'version': v, 'order': perm[:perm.index(v) + 1]}
+            if isinstance(live, str):
+                if (v, 'raise') not in reported:
+                    reported.add((v, 'raise'))
+                    report(ctx, f'get_supported_types({v}) {live} after the tables of {rp["order"][:-1]} were asked for', rp)
+                continue
+            bad = [f'{k} carried as python {kind}, the FIX value type is {KIND.get(k)}' for k, _c, kind in live if KIND.get(k) != kind]
+            if sorted(x[0] for x in live) != sorted(TYPE_NAMES[v]):
+                extra = sorted(set(x[0] for x in live) - set(TYPE_NAMES[v]))
+                missing = sorted(set(TYPE_NAMES[v]) - set(x[0] for x in live))
+                bad.append(f'supported type names differ from the documented ones (extra {extra}, missing {missing})')
+            if bad and (v, 'names') not in reported:
+                reported.add((v, 'names'))
+                report(ctx, f'version {v}, asked for after {rp["order"][:-1]}: ' + '; '.join(bad)[:400], rp)
+            if v in model and model[v] != live and (v, 'model') not in reported:
+                reported.add((v, 'model'))
+                ctx.disagree(f'type table {v} asked for after {rp["order"][:-1]}: {first_diff(live, model[v])}', rp)
     if ans[-1] is not None:
         kws = [untext(k) for k in parse_sx(ans[-1])[0]]
         if kws != list(_keyword.kwlist):
             ctx.disagree(f'keyword list: model {kws} vs python {_keyword.kwlist}', {'kind': 'keywords'})
 
 
-def run_cases(ctx, cases, tmp, workers):
-    """cases: [(label, d, valid, plans)] -> runs workers in parallel and the model in one batch, then judges"""
+def run_cases(ctx, cases, tmp, workers, groups=None, opts=None):
+    """cases: [(label, d, valid, plans)] -> runs workers in parallel and the model in one batch, then judges.
+    groups: [(indices into cases, schedule)] — those dictionaries are generated together in one process as the schedule says
+    (generator API: construct / generate interleaved) before each package is introspected in its own process."""
     rng = ctx.rng
-    jobs = [make_job(tmp, f'{ctx.seed}-{i}-{rng.randrange(1 << 20)}', d, rng, plans) for i, (_l, d, _v, plans) in enumerate(cases)]
+    jobs = [make_job(tmp, f'{ctx.seed}-{i}-{rng.randrange(1 << 20)}', d, rng, plans, (opts or {}).get(i))
+            for i, (_l, d, _v, plans) in enumerate(cases)]
+    group_of = {}
     with ThreadPoolExecutor(max_workers=workers) as ex:
-        results = list(ex.map(run_worker, jobs))
+        if groups:
+            for gi, (idx, _sch) in enumerate(groups):
+                for k, i in enumerate(idx):
+                    jobs[i]['mode'] = 'api'
+                    group_of[i] = (gi, k)
+            sched = list(ex.map(lambda g: run_worker({'repo': common.REPO, 'schedule': g[1], 'jobs': [jobs[i] for i in g[0]]}), groups))
+            for (idx, _sch), r in zip(groups, sched):
+                for k, i in enumerate(idx):
+                    jobs[i]['pregen'] = (r.get('gens') or [None] * len(idx))[k] or \
+                        {'err': 'other', 'cls': 'none', 'msg': 'generate() was not reached: ' + str(r.get('crash', ''))[-200:]}
+        # a dictionary whose generator the schedule constructs but never lets write has no package: nothing to judge
+        unwritten = {i for i, (gi, k) in group_of.items() if not any(op == 'g' and m == k for op, m in groups[gi][1])}
+        results = list(ex.map(lambda ij: {'skipped': True} if ij[0] in unwritten else run_worker(ij[1]), enumerate(jobs)))
     lines = []
     for _l, d, _v, _p in cases:
         s = dict_sx(d)
@@ -1067,8 +1160,19 @@ def run_cases(ctx, cases, tmp, workers):
     ans = ctx.driver.ask(lines) if ctx.driver.available else [None] * len(lines)
     for i, ((label, d, valid, plans), job, res) in enumerate(zip(cases, jobs, results)):
         fix_ans, load_ans, wf_ans, den_ans, sc_ans = ans[5 * i:5 * i + 5]
+        if res.get('skipped'):
+            continue
         rep = {'kind': 'dictionary', 'label': label, 'dict': d, 'mode': job['mode'], 'init_file': job['init_file'],
                'prefix': job['prefix'], 'app': job['app'], 'pkg': job['pkg'], 'valid': valid}
+        if i in group_of:
+            gi, k = group_of[i]
+            idx, sch = groups[gi]
+            rep = {'kind': 'interleaved', 'label': label, 'which': k, 'schedule': sch, 'dicts': [cases[j][1] for j in idx],
+                   'opts': [{o: jobs[j][o] for o in JOB_OPTS} for j in idx], 'valid': valid,
+                   'what': f'dictionary {k} of {len(idx)} generated in one process, schedule {sch}'}
+            if plans:
+                rep['plans'] = True
+            ctx.count('interleaved-schedule:' + ('prepare-all-then-write' if all(op == 'c' for op, _ in sch[:len(idx)]) else 'mixed'))
         ctx.case(json.dumps(d)[:300], nontrivial=True, sample_every=37)
         ctx.count(label)
         ctx.count('mode:' + job['mode'])
@@ -1116,12 +1220,16 @@ def run(ctx):
     rng = ctx.rng
     quick = ctx.tier == 'quick'
     n_clean, n_struct, n_mal, n_42 = (200, 200, 110, 6) if quick else (2400, 2400, 1200, 60)
+    n_groups = 45 if quick else 500
     workers = min(14, os.cpu_count() or 4)
     ctx.cov['rule'] = ('one case = one dictionary through the real generator in a fresh process: "clean" (standard header/trailer, tags '
                        'distinct per message; structure + build/encode/decode/validate/frame plans), "structural" (free reuse of fields, '
                        'groups and components, any section order with <fields> last), boundary dictionaries (all type names of each version, '
                        'a group name used 12 times, depth-4 nesting, component chains declared in both orders), extra FIX 4.2 dictionaries '
-                       '(regression of the repaired finding C16-fix42), malformed dictionaries (outcome agreement only); distinct = distinct dictionary JSON')
+                       '(regression of the repaired finding C16-fix42), malformed dictionaries (outcome agreement only); interleaved groups: '
+                       '2..3 dictionaries of any versions generated in ONE process at the granularity of the generator API (construct i / '
+                       'generate i in any interleaving, "prepare all then write all" among them), each package judged against its own '
+                       'dictionary; type tables asked for in every order of the four versions; distinct = distinct dictionary JSON')
     ctx.notes += [
         'ElementTree parsing, chevron rendering and the Python import machinery are on the implementation side of the correspondence only; '
         'the model is the element tree -> abstract classes -> references followed by name',
@@ -1161,6 +1269,31 @@ def run(ctx):
             run_cases(ctx, cases[i:i + chunk], tmp, workers)
             if len(ctx.violations) >= 5:
                 break
+        # interleaved groups (after the single cases: a violation found above is the simpler replay)
+        gcases, groups = [], []
+        # deterministic groups first: the boundary dictionaries prepared together, then written (both orders of construction)
+        bd = boundary_dicts()
+        for members, sch in (([4, 5], [['c', 0], ['c', 1], ['g', 0], ['g', 1]]), ([5, 4], [['c', 0], ['c', 1], ['g', 1], ['g', 0]]),
+                             ([6, 0, 9], [['c', 0], ['c', 1], ['c', 2], ['g', 0], ['g', 1], ['g', 2]]),
+                             ([3, 4], [['c', 0], ['c', 1], ['g', 1], ['g', 0], ['g', 1]])):
+            groups.append(([len(gcases) + k for k in range(len(members))], sch))
+            gcases += [('interleaved-boundary', bd[m], True, []) for m in members]
+        for _ in range(n_groups):
+            n = rng.choice([2, 2, 2, 3])
+            idx = []
+            for _k in range(n):
+                clean = rng.random() < 0.6
+                d = gen_dict(rng, ctx.tier, clean)
+                idx.append(len(gcases))
+                gcases.append(('interleaved', d, True, make_plans(rng, d, ref_expand(d), ctx.tier) if clean and rng.random() < 0.5 else []))
+            groups.append((idx, gen_schedule(rng, n)))
+        per = 40
+        for i in range(0, len(groups), per):
+            if len(ctx.violations) >= 5:
+                break
+            part = groups[i:i + per]
+            lo, hi = part[0][0][0], part[-1][0][-1] + 1
+            run_cases(ctx, gcases[lo:hi], tmp, workers, groups=[([j - lo for j in idx], sch) for idx, sch in part])
         if ctx.violations:
             shrink_first(ctx, tmp)
     finally:
@@ -1204,6 +1337,8 @@ def judge_one(d, plans_wanted, tmp, tag, ctx_like):
 def shrink_first(ctx, tmp, budget=60):
     """greedy: drop messages / items / unused fields while some violation of the same leading kind remains"""
     what, rep = ctx.violations[0]
+    if rep.get('kind') == 'interleaved':
+        return shrink_group(ctx, tmp)
     if rep.get('kind') != 'dictionary':
         return
     key = what.split(':')[0][:40]
@@ -1274,6 +1409,58 @@ def shrink_first(ctx, tmp, budget=60):
         ctx.violations[0] = (w, r)
 
 
+def shrink_group(ctx, tmp):
+    """an interleaved group: first whether the failing dictionary fails alone (then it is a plain dictionary case), else the
+    smallest group and schedule that still fails: the failing dictionary, one other, `c a, c b, g a` / `c b, c a, g a` / `c a, g a`"""
+    what, rep = ctx.violations[0]
+    key = what.split(':')[0][:40]
+    w = rep['which']
+    dicts, opts = rep['dicts'], rep.get('opts', [{}] * len(rep['dicts']))
+
+    class Scratch:
+        def __init__(self):
+            self.violations, self.known_hits, self.notes, self.disagreements = [], [], [], []
+            self.prop, self.seed, self.rng, self.tier = ctx.prop, ctx.seed, ctx.rng, ctx.tier
+            self.driver = type('D', (), {'available': False})()
+
+        def violation(self, what_, rep_):
+            self.violations.append((what_, rep_))
+
+        def disagree(self, *a, **k):
+            pass
+
+        def count(self, *a, **k):
+            pass
+
+        def case(self, *a, **k):
+            pass
+
+    def attempt(members, schedule):
+        sc = Scratch()
+        cases = [('shrunk', dicts[m], True, make_plans(ctx.rng, dicts[m], ref_expand(dicts[m]), 'quick') if m == w and 'plan' in rep else [])
+                 for m in members]
+        try:
+            run_cases(sc, cases, tmp, 3, groups=[(list(range(len(members))), schedule)], opts={k: opts[m] for k, m in enumerate(members)})
+        except Exception:  # noqa
+            return None
+        hits = [(a, b) for a, b in sc.violations if a.split(':')[0][:40] == key and b.get('which') == 0]
+        return hits[0] if hits else None
+    try:
+        for j in [None] + [m for m in range(len(dicts)) if m != w]:
+            if j is None:
+                cands = [([w], [['c', 0], ['g', 0]])]
+            else:
+                cands = [([w, j], [['c', 0], ['c', 1], ['g', 0]]), ([w, j], [['c', 1], ['c', 0], ['g', 0]]),
+                         ([w, j], [['c', 1], ['g', 1], ['c', 0], ['g', 0]])]
+            for members, schedule in cands:
+                hit = attempt(members, schedule)
+                if hit:
+                    ctx.violations[0] = (hit[0], dict(hit[1], label='shrunk', shrunk_from=f'{len(dicts)} dictionaries, schedule {rep["schedule"]}'))
+                    return
+    except Exception:  # noqa
+        pass
+
+
 def replay(ctx, path):
     r = json.load(open(path))
     rep = r.get('replay') or (r.get('no_longer_checks') or [{}])[-1].get('case') or {}
@@ -1292,6 +1479,24 @@ def replay(ctx, path):
                 print('loaded:', json.dumps(res['loaded'])[:1500])
             if ctx.driver.available:
                 print('model:', json.dumps(un_loaded(ctx.driver.ask([f'gen.load {dict_sx(d)}'])[0]))[:1500])
+        finally:
+            shutil.rmtree(tmp, ignore_errors=True)
+    elif rep.get('kind') == 'interleaved':
+        tmp = tempfile.mkdtemp(prefix='c16-')
+        try:
+            cases = []
+            for k, d in enumerate(rep['dicts']):
+                want = k == rep['which'] and ('plan' in rep or rep.get('plans'))
+                cases.append(('replay', d, True, make_plans(ctx.rng, d, ref_expand(d), 'quick') if want else []))
+            res = run_cases(ctx, cases, tmp, 3, groups=[(list(range(len(cases))), rep['schedule'])],
+                            opts={k: o for k, o in enumerate(rep.get('opts', []))})
+            ctx.case('replay-marker')
+            print('schedule (c = parse + construct the Generator, g = generate()):', rep['schedule'])
+            for k, r in enumerate(res):
+                print(f'dictionary {k}:', json.dumps({x: r.get(x) for x in ('gen', 'imp', 'checks')})[:500])
+            r = res[rep['which']]
+            if r.get('loaded'):
+                print('loaded:', json.dumps(r['loaded'])[:1500])
         finally:
             shutil.rmtree(tmp, ignore_errors=True)
     elif rep.get('kind') in ('type-table', 'keywords'):
